@@ -65,3 +65,27 @@ void hp_nolibxml_get_content(void)
   if (r == 1) { __CPROVER_assert(INSIDE((char *)begin) && strlen(begin) == exp, "content is the expected NUL-terminated slice of the buffer"); hwloc__nolibxml_import_close_content(&st); }
   VERIF_CANARY();
 }
+
+
+/* hwloc_nolibxml_look_init on a buffer made of a concrete document head (one job per head) followed by BL arbitrary bytes
+ * and the terminating NUL, allocated with its exact size: returns 0 or -1, every read stays inside the buffer, and on
+ * success the tag cursor it leaves for find_child points inside the buffer */
+#ifndef XHEAD
+#define XHEAD "<topology version=\"2.0\""
+#endif
+void hp_nolibxml_look_init(void)
+{
+  static const char head[] = XHEAD;
+  struct hwloc_xml_backend_data_s bdata; struct hwloc__nolibxml_backend_data_s nbdata;
+  hwloc__nolibxml_import_state_data_t n = (void *)st.data; unsigned i; int r; size_t total = sizeof(head) - 1 + BL;
+  xbuf = malloc(sizeof(head) - 1 + BL + 1);
+  __CPROVER_assume(xbuf != 0);
+  for (i = 0; i < sizeof(head) - 1; i++) xbuf[i] = head[i];
+  for (i = 0; i < BL; i++) xbuf[sizeof(head) - 1 + i] = nondet_char();
+  xbuf[total] = 0;
+  nbdata.buffer = xbuf; nbdata.buflen = total + 1; bdata.data = &nbdata; st.global = &bdata;
+  r = hwloc_nolibxml_look_init(&bdata, &st);
+  __CPROVER_assert(r == 0 || r == -1, "returns 0 or -1");
+  if (r == 0) __CPROVER_assert(n->tagbuffer != 0 && n->tagbuffer >= xbuf && n->tagbuffer <= xbuf + total, "on success the tag cursor points inside the buffer");
+  VERIF_CANARY();
+}
